@@ -12,7 +12,7 @@ def oracle_scan(c, casefile, limit=20):
         n += 1
         dist[op] = dist.get(op, 0) + 1
         msg = spec_c14.check(op, args, res)
-        if msg is not None and len(fails) < limit:
+        if msg is not None and keep_failure(fails, msg):
             fails.append({"line": lineno, "op": op, "args": args, "impl": res, "why": msg})
     return n, fails, dist
 
